@@ -62,7 +62,7 @@ func TestMain(m *testing.M) {
 	} else {
 		registry.RegisterKMSClient(c)
 	}
-	core.DeclareFaults("rng-short-read", "maybe-read-byte", "id-collision-scripted", "id-collision-deleted-scripted", "forced-scalar-rejection")
+	core.DeclareFaults("rng-short-read", "maybe-read-byte", "id-collision-scripted", "id-collision-deleted-scripted", "forced-scalar-rejection", "kek-transient-failure")
 	core.DeclareProbes("redraw-on-collision", "scripted-fresh-id", "raw-key-id-draw", "same-message-signed-twice", "second-primitive-same-key",
 		"second-handle-same-key", "subtle-constructor", "writer-repeat-on-primitive", "interleaved-keys", "full-sweep", "edge-position",
 		"field-delivered-by-short-reads", "ecdh-recompute-x25519", "ecdh-recompute-nist", "p521-masked-byte-flipped", "mlkem-consecutive",
@@ -1852,7 +1852,11 @@ func (w *world) newPrim(ks *keyState) {
 			if withCtx {
 				w.r.Probe("envelope-with-context")
 			}
-			w.bracket(ks.loc+".envelope-constructor", func() { p, err = envelopePrim(ks.k, ks.handles[0], tpl, withCtx) })
+			// the KEK fails its k-th wrap once (0: never): a transient error of the key-encryption service
+			failAt := rapid.IntRange(0, 3).Draw(t, "kekFailsAtCall")
+			w.bracket(ks.loc+".envelope-constructor", func() {
+				p, err = envelopePrim(ks.k, ks.handles[0], tpl, withCtx, failAt, func() bool { return !w.sr.replaying })
+			})
 			if err != nil {
 				t.Fatalf("harness: envelope AEAD over %s: %v", ks.e.Name, err)
 			}
@@ -1919,6 +1923,10 @@ func (w *world) produce(ki int) {
 	var out []byte
 	var err error
 	call := func() { out, err = p.produce(msg, aad) }
+	kekFailedBefore := 0
+	if p.fkek != nil {
+		kekFailedBefore = p.fkek.failed
+	}
 	w.armRejection()
 	wn := w.bracket(loc, call)
 	ks.calls++
@@ -1926,6 +1934,16 @@ func (w *world) produce(ki int) {
 		r.Probe("cost2-produce")
 	}
 	r.Logf("key %d %s prim %d (%s) msg %d -> %d bytes %s, consumed [%d,%d)", ki, ks.e.Name, pi, p.kind, mi, len(out), describe(err), wn.start, wn.end)
+	if p.fkek != nil && p.fkek.failed > kekFailedBefore {
+		// the injected KEK failure hit this call: it must surface as an error; nothing else
+		// about this call is judged, every later call on the primitive is judged as usual
+		r.Fault("kek-transient-failure")
+		w.faults["kek-failure"] = true
+		if err == nil {
+			r.Violation("C20/call-failed:"+loc, fmt.Sprintf("%s: the KEK refused to wrap the DEK, yet Encrypt reported success", ks.e.Name))
+		}
+		return
+	}
 	if err != nil {
 		r.Violation("C20/call-failed:"+loc, fmt.Sprintf("%s: %v", ks.e.Name, err))
 		return
